@@ -736,6 +736,7 @@ class UniqueDirectivesPerLocationChecker(ValidationVisitor):
             seen.add(name)
 
     enter_operation_definition = _validate_unique_directive_names
+    enter_variable_definition = _validate_unique_directive_names
     enter_field = _validate_unique_directive_names
     enter_field = _validate_unique_directive_names
     enter_fragment_spread = _validate_unique_directive_names
